@@ -312,6 +312,24 @@ fn authorised_writes_part(r: &mut Report, a: &Args) {
             let target = immutable_target(&v);
             fire(&fx, &mut c, format!("put_immutable v {vlen}"), &|t, tok| q_put_immutable(t, &id, tok, &target, &v));
         }
+        // populations: 1..45 distinct announcers (node ids) on one info hash, 1..25 distinct signing keys on
+        // another, with a lookup of that hash after every single announcement (sampling code paths that
+        // depend on the exact number of stored peers: one page of 20 / 10, one less, one more)
+        let (ih_p, ih_s): ([u8; 20], [u8; 20]) = (rng.array(), rng.array());
+        for k in 0..45u8 {
+            let mut idk = id;
+            idk[0] = k;
+            idk[19] ^= k;
+            fire(&fx, &mut c, format!("announce_peer by announcer #{k}"), &|t, tok| q_announce_peer(t, &idk, &ih_p, 2000 + k as u16, None, tok));
+            fire(&fx, &mut c, format!("get_peers with {} announcers stored", k + 1), &|t, _| q_get_peers(t, &id, &ih_p, false));
+        }
+        for k in 0..25u8 {
+            let sk = ed25519_dalek::SigningKey::from_bytes(&[k.wrapping_mul(7).wrapping_add(1); 32]);
+            let ts = fx.w.unix_micros() + 1000;
+            let sg = sign_announce(&sk, &ih_s, ts);
+            fire(&fx, &mut c, format!("announce_signed_peer by key #{k}"), &|t, tok| q_announce_signed_peer(t, &id, &ih_s, &sg.k, &sg.sig, ts, tok));
+            fire(&fx, &mut c, format!("get_signed_peers with {} keys stored", k + 1), &|t, _| q_get_peers(t, &id, &ih_s, true));
+        }
         // every one of these is answered (ack or BEP error), and the node is still there afterwards
         let alive = fx.server_alive();
         let pong = matches!(fx.rpc(&mut c, |t| q_ping(t, &id)), Reply::Resp(_));
